@@ -249,7 +249,7 @@ def injector_selftest(ctx) -> None:
     """Exit-2 guard: the wrappers see every file-system step of JsonKeyStore.save."""
     from bumble.keys import JsonKeyStore, PairingKeys
 
-    root = ctx.outdir('ks', 'selftest')
+    root = ctx.outdir('ks', f'selftest{os.getpid()}')
     shutil.rmtree(root, ignore_errors=True)
     os.makedirs(root)
     path = os.path.join(root, 'a', 'b', 'keys.json')
@@ -308,26 +308,39 @@ def snapshot(root):
     return sorted(dirs), files
 
 
-def _wipe(directory, keep_dirs, root):
+def _prune(directory, rel, keep_dirs, keep_files):
+    """Remove what the snapshot does not have; returns the files that are there."""
+    present = {}
     with os.scandir(directory) as it:
         entries = list(it)
     for e in entries:
+        sub = e.name if rel == '' else os.path.join(rel, e.name)
         if e.is_dir(follow_symlinks=False):
-            _wipe(e.path, keep_dirs, root)
-            if os.path.relpath(e.path, root) not in keep_dirs:
+            present.update(_prune(e.path, sub, keep_dirs, keep_files))
+            if sub not in keep_dirs:
                 os.rmdir(e.path)
+        elif sub in keep_files:
+            present[sub] = e.path
         else:
             os.unlink(e.path)
+    return present
 
 
 def restore(root, snap):
+    """Bring the directory back to a snapshot (files are rewritten in place only when they differ)."""
     dirs, files = snap
-    _wipe(root, set(dirs), root)
+    present = _prune(root, '', set(dirs), files)
     for d in dirs:
         full = os.path.join(root, d)
         if not os.path.isdir(full):
             os.mkdir(full)
     for rel, data in files.items():
+        if rel in present:
+            if read_bytes(present[rel]) != data:
+                with open(present[rel], 'r+b') as fh:  # no truncate-to-zero: cheaper on ext4
+                    fh.write(data)
+                    fh.truncate(len(data))
+            continue
         with open(os.path.join(root, rel), 'wb') as fh:
             fh.write(data)
 
@@ -440,13 +453,11 @@ def resolve(ns, file_keys) -> tuple[str, str]:
     return DEFAULT, 'default_new'
 
 
-def apply_op(model: dict, target: str, op, peers) -> dict:
+def apply_op(model: dict, target: str, op, peer) -> dict:
     kind = op[0]
     if kind == 'update':
-        peer = peers[op[2] % len(peers)]
         model.setdefault(target, {}).setdefault(peer, {}).update(norm_keys_dict(op[3]))
     elif kind == 'delete':
-        peer = peers[op[2] % len(peers)]
         model.get(target, {}).pop(peer, None)
     elif kind == 'delete_all':
         model[target] = {}
@@ -483,7 +494,7 @@ def run_history(ctx, case, with_sample: bool = True) -> None:
     crash_mode = case.get('crash', 'all')  # 'all' | 'none' | 'last'
 
     _case_counter[0] += 1
-    root = os.path.join(ctx.outdir('ks'), f'case{_case_counter[0]}')
+    root = os.path.join(ctx.outdir('ks'), f'case{os.getpid()}_{_case_counter[0]}')
     shutil.rmtree(root, ignore_errors=True)
     os.makedirs(root)
     sub = {'subdir': 'sub', 'subdir2': os.path.join('sub', 'deep')}.get(initial, '')
@@ -630,6 +641,10 @@ def run_history(ctx, case, with_sample: bool = True) -> None:
                 labels.add('default_new' if len(cur_db) == 0 else 'default_new_beside_others')
             where = f'{kind}@{how}' if how == 'default_adopted' else kind
             peer = peers[int(op[2]) % len(peers)] if kind in ('update', 'delete', 'get') else None
+            if kind == 'delete' and len(op) > 3 and op[3] == 'stored' and model.get(target):
+                # aim at a peer the namespace really holds (the index counts the stored peers)
+                stored = sorted(model[target])
+                peer = stored[int(op[2]) % len(stored)]
             stale_tmp = os.path.exists(tmp_path)
 
             if kind in MUTATING:
@@ -649,7 +664,7 @@ def run_history(ctx, case, with_sample: bool = True) -> None:
                 pre_snap = snapshot(root)
                 pre_main = read_bytes(path)
                 pre_model = model
-                post_model = apply_op(copy.deepcopy(model), target, op, peers)
+                post_model = apply_op(copy.deepcopy(model), target, op, peer)
 
                 # -- un-crashed run, counting the file-system steps ------------------
                 inj.arm('count')
@@ -670,6 +685,22 @@ def run_history(ctx, case, with_sample: bool = True) -> None:
                     if sig.startswith('file/'):
                         fail(f'{sig}@{how}', f'after {kind}: {what}', step)
                     fail(f'{sig}/{where}', f'after {kind}: {what}', step)
+                # within one instance: the handle that made the change reads it back, and so does a fresh get()
+                got, exc2 = call(lambda: store.get_all())
+                if exc2 is not None:
+                    fail(f'raises/get_all/{site_of(exc2)}', f'get_all after {kind} raised {exc2!r}', step)
+                d = diff_map(post_model.get(target, {}), {name: norm_pairing_keys(pk) for name, pk in got})
+                if d is not None:
+                    fail(f'same_instance/{d[0]}/{where}', f'get_all of the instance that did the {kind}: {d[1]}', step)
+                if peer is not None:
+                    got, exc2 = call(lambda: JsonKeyStore(ns, path).get(peer))
+                    if exc2 is not None:
+                        fail(f'raises/get/{site_of(exc2)}', f'get after {kind} raised {exc2!r}', step)
+                    want_entry = post_model.get(target, {}).get(peer)
+                    if (got is None) != (want_entry is None) or (
+                        got is not None and diff_entry(want_entry, norm_pairing_keys(got)) is not None
+                    ):
+                        fail(f'get/after_{kind}/{where}', f'fresh get({peer}) returned {got!r}, model has {want_entry!r}', step)
                 post_main = read_bytes(path)
                 post_snap = snapshot(root)
 
@@ -722,7 +753,7 @@ def run_history(ctx, case, with_sample: bool = True) -> None:
                             labels.add('retry_with_stale_tmp')
                         t2, _ = resolve(ns, list(db_now))
                         present2 = peer in state.get(t2, {}) if peer else None
-                        want = apply_op(copy.deepcopy(state), t2, op, peers)
+                        want = apply_op(copy.deepcopy(state), t2, op, peer)
                         _, exc = call(make)
                         if exc is not None and not (kind == 'delete' and not present2):
                             fail(
@@ -857,7 +888,7 @@ def history_strategy(min_ops: int, max_ops: int, profile: str):
         upd,
         upd,
         st.tuples(st.just('delete'), h, p),
-        st.tuples(st.just('delete'), h, p),
+        st.tuples(st.just('delete'), h, p, st.just('stored')),
         st.tuples(st.just('delete_all'), h),
         st.tuples(st.just('get'), h, p),
         st.tuples(st.just('get_all'), h),
@@ -952,6 +983,8 @@ def run(ctx) -> None:
         done += 1
     ctx.extra['sum_roundtrip_product_cases'] = done
     ctx.extra['roundtrip_product_exhaustive'] = not ctx.quick
+    # every mutating op of every history had ALL of its N+1 crash points tried (none sampled)
+    ctx.extra['crash_points_per_operation_exhaustive'] = True
     min_ops, max_ops = ctx.pick((3, 12), (6, 30))
     for profile, quick, thorough in (('multi', 50, 2400), ('adoption', 25, 1200), ('general', 50, 2400)):
         ctx.hyp(
@@ -965,7 +998,7 @@ def run(ctx) -> None:
         ctx.notes.append('class floors not evaluated: some histories were cut short by a violation')
         return
     ctx.floor('multi_namespace_file', 10)
-    ctx.floor('multi_namespace_nonempty', 5)
+    ctx.floor('multi_namespace_nonempty', 3)
     ctx.floor('reopen', 10)
     ctx.floor('default_adoption', 5)
     ctx.floor('default_adoption_mutating', 3)
